@@ -201,7 +201,19 @@ namespace verif
         inline RespSpec make(Choices& c, bool allow_stream, size_t max_body)
         {
             RespSpec r;
-            r.code = codes()[c.pick(uint32_t(codes().size()))];
+            {
+                // "any status code": also codes the library has no name or reason phrase for (a handler
+                // produces them with static_cast<Http::Code>(n), the response parser does the same).
+                // One byte as before (byte % n over the table of n = 64 named codes), except that the second
+                // lap of the byte range (n..2n-1) now selects an unnamed code.
+                static const int unnamed[] = { 104, 199, 209, 225, 299, 306, 309, 399, 419, 420, 425, 430, 432, 450, 498, 509, 512, 598, 600, 699, 700, 999 };
+                unsigned b = c.pick(256);
+                unsigned n = unsigned(codes().size()); // 64 named codes
+                if (b < n || b >= 2 * n)
+                    r.code = codes()[b % n];
+                else
+                    r.code = static_cast<Pistache::Http::Code>(unnamed[(b - n) % (sizeof unnamed / sizeof unnamed[0])]);
+            }
             std::set<unsigned> used;
             unsigned nh = c.pick(7);
             for (unsigned i = 0; i < nh; ++i)
